@@ -23,6 +23,12 @@ def warm_up():
         except Exception:
             pass
     ra[0, 0] = 7
+    # conversions of matrices of every small shape (anything remembered per shape for the first configuration would show later)
+    for r in range(0, 6):
+        for c in range(0, 6):
+            m = RaggedArray.from_numpy_array(np.arange(r * c).reshape(r, c))
+            if r:
+                m[r - 1]; m[::-1]; m.to_numpy_array()
     (ra + 1).sum(axis=-1); ra.sum(axis=0); np.cumsum(ra, axis=-1); ra.sort(axis=-1); np.concatenate([ra, ra]); ra.nonzero()
 
 
